@@ -55,6 +55,12 @@ def gen_cfg(g):
         cfg["opts"]["min_step"] = float(g.uniform(0.05, 0.4))
     elif q < 0.6 and cfg["sampler"] == "smc":
         cfg["opts"]["max_n_steps"] = int(g.integers(2, 8))
+    elif q < 0.75 and cfg["sampler"] == "smc":
+        # a schedule cut short by the step cap: the run ends below temperature 1 (and may still enlarge its final population)
+        nst = int(g.integers(3, 8))
+        cfg["opts"] = {"adaptive": False, "n_steps": nst, "max_n_steps": int(g.integers(1, nst))}
+        if g.random() < 0.6:
+            cfg["opts"]["n_final_samples"] = int(g.choice([cfg["n"] // 2, 2 * cfg["n"]]))
     if g.random() < 0.3:
         cfg["opts"]["n_final_samples"] = int(g.choice([cfg["n"] // 2, 3 * cfg["n"]]))
     cfg["flow"]["truncate"] = bool(g.random() < 0.5)
